@@ -1,0 +1,25 @@
+//go:build verif
+// +build verif
+
+package executor
+
+import (
+	"math/big"
+
+	"com.tuntun.rangers/node/src/middleware/log"
+)
+
+// Verification hook (build tag verif only): thin export of the contract executor's decoding
+// of the transaction data (gas limit, transfer value, input) so that the path "value carried
+// by a wrapped Ethereum transaction -> value handed to the EVM" can be driven without a node.
+func VerifDecodeContractData(txData string) (gasLimit uint64, transferValue *big.Int, input []byte, errMessage string) {
+	l := logger
+	if l == nil {
+		l = log.GetLoggerByIndex(log.TxLogConfig, "verif")
+	}
+	raw, msg := (&contractExecutor{logger: l}).decodeContractData(txData)
+	if raw == nil {
+		return 0, nil, nil, msg
+	}
+	return raw.GasLimit, raw.TransferValue, raw.AbiData, msg
+}
